@@ -46,6 +46,7 @@ static int hmode = 0;                         // 0 none, 1 accept listed, 2 decl
 static std::set<unsigned long> hset;
 static uint64_t claimUntil[16];
 static bool owedProd[16], owedConf[16];   // information the bus has not seen since its send failed
+static uint64_t armProdAt[16], armConfAt[16];   // time of the last event that can have (re)armed the retry timer
 static bool mayProd[16], mayConf[16];     // a retry timer may be armed: one more correct copy is legitimate
 static const unsigned long DEF_TX[] = {59392UL, 59904UL, 60160UL, 60416UL, 60928UL, 126208UL, 126464UL, 126993UL, 126996UL, 126998UL};
 static const unsigned long DEF_RX[] = {59392UL, 59904UL, 60160UL, 60416UL, 60928UL, 65240UL, 126208UL};
@@ -155,13 +156,13 @@ struct Viol { std::string key, text; };
 struct ReqInfo { bool isRq; unsigned requester, dst; unsigned long P; bool wellFormed; };
 
 // the oracle for one ParseMessages(): `fresh` = frames produced during it (accepted by the driver or queued)
-static std::vector<Viol> judge(const ReqInfo &q, const std::vector<Frame> &fresh, bool refusals, std::string &cls, bool &nontrivial) {
+static std::vector<Viol> judge(const ReqInfo &q, const std::vector<Frame> &fresh, bool refusals, bool queuedBefore, std::string &cls, bool &nontrivial) {
   std::vector<Viol> v; std::vector<Dm> dec = decodeFrames(fresh); nontrivial = false;
   bool node = (mode == 1 || mode == 2);
   bool addressed = q.isRq && q.dst != 255;
   cls = q.isRq ? classOf(q.P, addressed) : "poll";
   bool anyOwed = false; for (int i = 0; i < nDev; i++) anyOwed |= owedProd[i] || owedConf[i] || mayProd[i] || mayConf[i];
-  bool strict = !refusals && !anyOwed;
+  bool strict = !refusals && !queuedBefore && !anyOwed;
   char tb[256];
   // group the decoded messages by device
   std::vector<std::vector<Dm>> by(nDev);
@@ -171,6 +172,8 @@ static std::vector<Viol> judge(const ReqInfo &q, const std::vector<Frame> &fresh
     bool claiming = g_now < claimUntil[d];
     bool edge = claimUntil[d] != 0 && g_now == claimUntil[d];          // the two timer builds differ at this one instant
     std::vector<Exp> exp; if (target && !claiming) exp = expectedFor(d, q.requester, addressed, q.P);
+    // a retry attempted inside the claim window is refused by SendMsg and re-arms its timer
+    if (claiming || edge) { if (owedProd[d]) armProdAt[d] = g_now; if (owedConf[d]) armConfAt[d] = g_now; }
     // --- never: NAK to a broadcast request, NAK to somebody else than the requester, anything while claiming
     for (auto &m : by[d]) {
       if (m.pgn == 59392UL && m.complete && m.d.size() >= 1 && m.d[0] == 1) {
@@ -221,13 +224,25 @@ static std::vector<Viol> judge(const ReqInfo &q, const std::vector<Frame> &fresh
         if (exp[i].pgn == 126998UL) anyConf = true;
         if (seen[i]) continue;
         if (!refusals) { snprintf(tb, sizeof tb, "device %d request %lu: no %s although the driver refused nothing", d, q.P, exp[i].kind.c_str()); v.push_back({"C08:unanswered:" + cls, tb}); }
-        else if (exp[i].pgn == 126996UL) { if (!sawProd) owedProd[d] = true; }
-        else if (exp[i].pgn == 126998UL) { if (!sawConf) owedConf[d] = true; }
+        else if (exp[i].pgn == 126996UL) { if (!sawProd) { owedProd[d] = true; armProdAt[d] = g_now; } }
+        else if (exp[i].pgn == 126998UL) { if (!sawConf) { owedConf[d] = true; armConfAt[d] = g_now; } }
         else C.count("answer_lost_to_driver_refusal");
       }
       // a send that failed in this poll re-arms the retry timer: one more (correct) copy may follow later
       if (refusals && (anyProd || hadProd)) mayProd[d] = true;
       if (refusals && (anyConf || hadConf)) mayConf[d] = true;
+      // "always answered": an answer whose send was refused is owed until it is on the bus. The library retries product
+      // and configuration information 187+8*src / 187+10*src ms after the failed attempt: a poll at which the driver
+      // refuses nothing, past that time (counted from the last refusal that can have re-armed the timer), must send it
+      if (refusals) { if (owedProd[d]) armProdAt[d] = g_now; if (owedConf[d]) armConfAt[d] = g_now; }
+      else {
+        if (owedProd[d] && g_now >= armProdAt[d] + 187 + 8 * (uint64_t)N->src(d) + 2) {
+          snprintf(tb, sizeof tb, "device %d (address %u) owes its product information since t=%llu; this accepting poll at t=%llu did not send it", d, N->src(d), (unsigned long long)armProdAt[d], (unsigned long long)g_now);
+          v.push_back({"C08:retry:product", tb}); owedProd[d] = false; }
+        if (owedConf[d] && g_now >= armConfAt[d] + 187 + 10 * (uint64_t)N->src(d) + 2) {
+          snprintf(tb, sizeof tb, "device %d (address %u) owes its configuration information since t=%llu; this accepting poll at t=%llu did not send it", d, N->src(d), (unsigned long long)armConfAt[d], (unsigned long long)g_now);
+          v.push_back({"C08:retry:config", tb}); owedConf[d] = false; }
+      }
     }
   }
   return v;
@@ -244,9 +259,9 @@ static bool runParse(const ReqInfo &q, bool record) {
   std::vector<Frame> got = N->sent; N->sent.clear();
   std::vector<Frame> stream = got; unsigned qn = N->queued(); for (unsigned k = 0; k < qn; k++) stream.push_back(N->queuedFrame(k));
   std::vector<Frame> fresh(stream.begin() + std::min<size_t>(q0, stream.size()), stream.end());
-  bool refusals = N->refused != r0 || q0 != 0;
+  bool refusals = N->refused != r0;
   std::string cls; bool nontriv = false;
-  std::vector<Viol> v = judge(q, fresh, refusals, cls, nontriv);
+  std::vector<Viol> v = judge(q, fresh, refusals, q0 != 0, cls, nontriv);
   if (record) {
     C.outs(std::string("- ") + framesStr(got));
     for (auto &x : v) C.fail(x.key, "%s", x.text.c_str());
@@ -289,7 +304,7 @@ static void exec(const std::string &line) {
     endCase(); C.op("%s", line.c_str()); C.count("op_new");
     unsigned qsize = num(w[2]); mode = atoi(w[3].c_str()); nDev = atoi(w[4].c_str()); uint64_t origin = strtoull(w[5].c_str(), 0, 10);
     g_now = origin; delete N; N = new Node(); opened = false; keepLists.clear(); keepStr.clear(); keepProd.clear();
-    for (int i = 0; i < 16; i++) { prodCfg[i] = ProdCfg(); declTx[i].clear(); declRx[i].clear(); claimUntil[i] = 0; owedProd[i] = owedConf[i] = mayProd[i] = mayConf[i] = false; }
+    for (int i = 0; i < 16; i++) { prodCfg[i] = ProdCfg(); declTx[i].clear(); declRx[i].clear(); claimUntil[i] = 0; owedProd[i] = owedConf[i] = mayProd[i] = mayConf[i] = false; armProdAt[i] = armConfAt[i] = 0; }
     confCfg = ConfCfg(); confCfg.s[0] = "NMEA2000 library, https://github.com/ttlappalainen/NMEA2000"; hmode = 0; hset.clear();
     N->SetDeviceCount(nDev);
     for (int i = 0; i < nDev; i++) N->SetDeviceInformation(1000 + 7 * i, 130 + i, 25, 2000 + i, 4, i);
@@ -501,6 +516,33 @@ static void retryCase(Rng &R, const char *flavor) {
   }
 }
 
+// product AND configuration information refused for the same device(s): both retry timers are armed at the same time
+// (187+8*src and 187+10*src ms); polls between the two deadlines and after both, with the driver accepting again
+static void bothPendingCase(Rng &R, const char *flavor, int shape) {
+  int devs = shape % 3 == 0 ? 1 : (int)R.range(2, 4);
+  newCase(R, flavor, devs, R.chance(1, 2) ? 1 : 2, (unsigned)R.range(2, 9), R.chance(1, 3));
+  int rounds = (int)R.range(1, 2);
+  for (int round = 0; round < rounds; round++) {
+    exec("accdef 0");
+    int d1 = (int)R.below(devs), d2 = shape % 3 == 1 ? (d1 + 1) % devs : d1; bool bc = shape % 3 == 2;
+    unsigned r1 = (unsigned)R.below(250), r2 = (unsigned)R.below(250); char b[96];
+    bool confFirst = R.chance(1, 2);
+    for (int k = 0; k < 2; k++) {
+      bool conf = (k == 0) == confFirst;
+      snprintf(b, sizeof b, "rq %u %u %lu", conf ? r2 : r1, bc ? 255u : (unsigned)N->src(conf ? d2 : d1), conf ? 126998UL : 126996UL); exec(b);
+    }
+    if (R.chance(1, 3)) exec("poll");
+    exec("accdef 1");
+    unsigned s = N->src(d1);
+    // between the deadlines of device d1, then past both, then far past
+    uint64_t between = 187 + 8 * s + 1 + R.below(2 * s - 1);
+    if (R.chance(1, 4)) { uint64_t e = (uint64_t)R.range(0, 186); exec("t " + std::to_string(e)); exec("poll"); between -= e; }
+    exec("t " + std::to_string(between)); exec("poll");
+    exec("t " + std::to_string(R.range(2 * s + 2, 300))); exec("poll");
+    if (R.chance(1, 2)) { exec("t " + std::to_string(R.range(0, 3000))); exec("poll"); }
+  }
+}
+
 int main(int argc, char **argv) {
   C.init(argc, argv);
   C.rule = "case = one node (new..) with its op sequence; non-trivial = a request that must draw an answer or falls into a claim window; distinct = (answer class, addressed/broadcast, requested PGN, device count, handler mode, driver refusal)";
@@ -547,7 +589,7 @@ int main(int argc, char **argv) {
   }
   // (3) random configurations and histories
   int ncases = C.thorough ? 3000 : 400;
-  for (int i = 0; i < ncases; i++) { randomCase(R, flavor); if (i % 4 == 0) retryCase(R, flavor); }
+  for (int i = 0; i < ncases; i++) { randomCase(R, flavor); if (i % 4 == 0) retryCase(R, flavor); if (i % 4 == 1) bothPendingCase(R, flavor, i / 4); }
   // (4) thorough: all 2^24 PGNs against the oracle, and a stratified subset through the model
   if (C.thorough) {
     char b[160]; snprintf(b, sizeof b, "new %s 40 1 3 123456", flavor); exec(b);
